@@ -23,7 +23,7 @@ ASSUMPTIONS = [
     "Carrier() needs the Windows-only greedy DLL: the harness swaps a stub in for rect.GreedyManager (the greedy step is not part of the property)",
     "pysat is trusted as the model enumerator; model sets are capped at 60000 (never reached on the generated sizes)",
 ]
-CASES = {"quick": 2500, "thorough": 40000}
+CASES = {"quick": 2500, "thorough": 150000}
 MIN_CASES = {"quick": 100, "thorough": 2500}
 REQUIRED_CLASSES = ["int_origin", "nonuniform", "fractional_size", "shifted_origin", "scaled", "decimal"]
 REQUIRED_COUNTERS = ["model_sets_compared", "models_enumerated", "reference_shapes_enumerated", "solve_return_checked", "bound:none", "bound:optimum", "bound:optimum+1",
